@@ -557,17 +557,47 @@ func (w *World) scenarioBigBlock(h *History, deliver func(*TNode) *Op) {
 // then disconnected again by a competing two-block branch from X's parent (undo of every kind, on a live stake state).
 func (w *World) scenarioUndoKinds(h *History, deliver func(*TNode) *Op) {
 	rng := w.rng
-	for round := 0; round < 7; round++ {
+	for round := 0; round < 14; round++ {
 		parent := w.nodeOfTop(h.NUT)
 		if parent == nil || parent.Snap == nil {
 			return
 		}
-		kind := []int{4, 5, 4, 3, 2, 5, 1}[round]
+		kind := []int{4, 5, 4, 3, 2, 5, 1}[round%7]
 		var txs []*transaction.Transaction
 		var meta []TxMeta
 		start := rng.Intn(len(w.wallets))
+		// candidate signers; for a stake, first those whose fund has unlock height 0 (the fund the staker reward creates
+		// for a pool owner): staking into it and undoing must bring the 0 back
+		order := make([]int, 0, len(w.wallets))
 		for k := 0; k < len(w.wallets); k++ {
-			w.forceKind, w.forceWallet = kind, (start+k)%len(w.wallets)
+			order = append(order, (start+k)%len(w.wallets))
+		}
+		if kind == 4 {
+			var first, rest []int
+			w.view(parent.Snap, func(v *View) {
+				for _, wi := range order {
+					zero := false
+					if d := v.Delegate(v.State(w.wallets[wi].Addr).DelegateId); d != nil {
+						for _, f := range d.Funds {
+							if f.Owner == w.wallets[wi].Addr && f.Unlock == 0 {
+								zero = true
+							}
+						}
+					}
+					if zero {
+						first = append(first, wi)
+					} else {
+						rest = append(rest, wi)
+					}
+				}
+			})
+			if len(first) > 0 {
+				h.Stats["undo-stake-into-unlock0-fund"]++
+			}
+			order = append(first, rest...)
+		}
+		for _, wi := range order {
+			w.forceKind, w.forceWallet = kind, wi
 			t, m, _ := w.genTxs(parent, 1, 0)
 			w.forceKind = 0
 			if len(t) == 1 && int(t[0].Version) == kind {
